@@ -333,7 +333,14 @@ func main() {
 		defer m.d.Close()
 	}
 
-	if o.Replay != "" {
+	if o.Replay != "" && replayIsHookCase(o.Replay) {
+		if err := runHookEngine(o, rep, newModel); err != nil {
+			fmt.Fprintln(os.Stderr, "corr_c13:", err)
+			rep.Note("engine error: %v", err)
+			rep.Write(o.Out)
+			os.Exit(3)
+		}
+	} else if o.Replay != "" {
 		var sc Scenario
 		if err := common.LoadReplay(o.Replay, &sc); err != nil {
 			fmt.Fprintln(os.Stderr, "corr_c13:", err)
@@ -375,9 +382,23 @@ func main() {
 			record(rep, &results[i])
 		}
 		rep.Note("%d sessions in %.1f s on %d workers", n, time.Since(start).Seconds(), workers)
+		if err := runHookEngine(o, rep, newModel); err != nil {
+			fmt.Fprintln(os.Stderr, "corr_c13:", err)
+			rep.Note("engine error: %v", err)
+			rep.Write(o.Out)
+			os.Exit(3)
+		}
 	}
 	if err := rep.Write(o.Out); err != nil {
 		fmt.Fprintln(os.Stderr, err)
 		os.Exit(3)
 	}
+}
+
+// replayIsHookCase: replay files of the handleconn engine carry a `wait_kind` member.
+func replayIsHookCase(path string) bool {
+	var probe struct {
+		WaitKind string `json:"wait_kind"`
+	}
+	return common.LoadReplay(path, &probe) == nil && probe.WaitKind != ""
 }
